@@ -32,39 +32,43 @@ def SerOkL : TL → Bool
 end
 
 mutual
-theorem good_all : ∀ (t : T), SerOk t = true → Clean t = true → Good t
+theorem both_all : ∀ (t : T), SerOk t = true → Clean t = true → Good t ∧ Live t
   | .node d cs, hs, hc => by
     simp only [SerOk, Bool.and_eq_true, Option.isNone_iff_eq_none] at hs
     simp only [Clean, Bool.and_eq_true] at hc
     obtain ⟨⟨htmo, hko⟩, hsl⟩ := hs
-    have hch := good_allL cs hsl hc.2
+    have hch := fun j c h => (both_allL cs hsl hc.2 j c h).1
+    have hlv := fun j c h => (both_allL cs hsl hc.2 j c h).2
     unfold kindOk at hko
     split at hko
     · rename_i s tag hk
       have : cs = .nil := by cases cs with | nil => rfl | cons a b => simp [TL.length] at hko
-      subst this; exact good_func d s tag hk hc.1
+      subst this; exact ⟨good_func d s tag hk hc.1, live_func d s tag hk hc.1⟩
     · rename_i ms hk
       simp only [Bool.and_eq_true, beq_iff_eq, decide_eq_true_eq] at hko
       have : cs = .nil := by cases cs with | nil => rfl | cons a b => simp [TL.length] at hko
-      subst this; exact good_sleep d ms hk hko.2 hc.1 htmo
-    · rename_i m hk; exact good_wrapper d cs m hk hc.1 htmo hc.2 hch (by simpa using hko)
-    · rename_i hk; exact good_composite d cs hk hc.1 htmo hc.2 hch (by simpa using hko)
-    · rename_i a b hk; exact good_ifElse d cs a b hk hc.1 htmo hc.2 hch (by simpa using hko)
-    · rename_i hd hk; exact good_switch d cs hd hk hc.1 htmo hc.2 hch (by simpa using hko)
-    · rename_i m hk; exact good_seq d cs m hk hc.1 htmo hc.2 hch
-    · rename_i hk; exact good_ifThen d cs hk hc.1 htmo hc.2 hch (by simpa using hko)
+      subst this; exact ⟨good_sleep d ms hk hko.2 hc.1 htmo, live_sleep d ms hk hc.1 htmo⟩
+    · rename_i m hk; exact (good_wrapper d cs m hk hc.1 htmo hc.2 hch (by simpa using hko)).imp id (fun f => f hlv)
+    · rename_i hk; exact (good_composite d cs hk hc.1 htmo hc.2 hch (by simpa using hko)).imp id (fun f => f hlv)
+    · rename_i a b hk; exact (good_ifElse d cs a b hk hc.1 htmo hc.2 hch (by simpa using hko)).imp id (fun f => f hlv)
+    · rename_i hd hk; exact (good_switch d cs hd hk hc.1 htmo hc.2 hch (by simpa using hko)).imp id (fun f => f hlv)
+    · rename_i m hk; exact (good_seq d cs m hk hc.1 htmo hc.2 hch).imp id (fun f => f hlv)
+    · rename_i hk; exact (good_ifThen d cs hk hc.1 htmo hc.2 hch (by simpa using hko)).imp id (fun f => f hlv)
     · cases hko
-theorem good_allL : ∀ (cs : TL), SerOkL cs = true → CleanL cs = true → ∀ j c, cs.get? j = some c → Good c
+theorem both_allL : ∀ (cs : TL), SerOkL cs = true → CleanL cs = true → ∀ j c, cs.get? j = some c → Good c ∧ Live c
   | .nil, _, _, j, c, h => by simp [TL.get?] at h
   | .cons t ts, hs, hc, 0, c, h => by
     simp only [SerOkL, CleanL, Bool.and_eq_true] at hs hc
     simp only [TL.get?, Option.some.injEq] at h; subst h
-    exact good_all t hs.1 hc.1
+    exact both_all t hs.1 hc.1
   | .cons t ts, hs, hc, j + 1, c, h => by
     simp only [SerOkL, CleanL, Bool.and_eq_true] at hs hc
     simp only [TL.get?] at h
-    exact good_allL ts hs.2 hc.2 j c h
+    exact both_allL ts hs.2 hc.2 j c h
 end
+
+theorem good_all (t : T) (hs : SerOk t = true) (hc : Clean t = true) : Good t := (both_all t hs hc).1
+theorem live_all (t : T) (hs : SerOk t = true) (hc : Clean t = true) : Live t := (both_all t hs hc).2
 
 /-! ### the run as the owner of the root sees it -/
 
@@ -186,5 +190,58 @@ theorem result_matches_doc_run (t : T) (hs : SerOk t = true) (hc : Clean t = tru
     subst hre
     obtain ⟨pfx, hpp, e⟩ := hp (by simp)
     left; exact ⟨pfx, hpp, by simpa [run] using e⟩
+
+theorem bigCount_replicate (M n : Nat) : bigCount M (List.replicate n (Op.adv M)) = n := by
+  induction n with
+  | zero => rfl
+  | succ n ih => rw [List.replicate_succ, bigCount_cons, ih]; simp [big]; omega
+
+/-- **liveness for the serial trees covered by `SerOk`**: start the freshly built tree, then any sequence
+of loop passes and clock steps among which at least `cost t + 1` are big (a clock step of at least the
+longest SleepAction delay of the tree; when the tree has no delay, every pass and clock step counts).
+Then the evaluator assigns a result `r`, and the owner has observed the complete visit order followed by
+exactly one finish notification, carrying `r` — however long the schedule goes on afterwards. -/
+theorem finishes_once_run (t : T) (hs : SerOk t = true) (hc : Clean t = true) (ops : List Op) (hcf : ops.all cfOp = true)
+    (M : Nat) (hM : maxDelay t ≤ M) (hbig : cost t + 1 ≤ bigCount M ops) :
+    ∃ r, eval t = some r ∧ trOf (run t {} (.calls [.start] :: ops)).2.log = (visit t).map Sum.inl ++ [Sum.inr r] := by
+  obtain ⟨hgood, hlive⟩ := both_all t hs hc
+  have hg0 : GIu ({} : G) := ⟨GI_init, rfl⟩
+  obtain ⟨ok, hg1, _, _, _, hrun⟩ := hgood {} hg0
+  have e0 : run t {} (.calls [.start] :: ops) = run (start t {}).1 (start t {}).2.1 (.pass :: ops) := by
+    rw [run, run]
+    have := step_start t {}
+    simp only [Prod.mk.injEq] at this
+    rw [this.1, this.2]
+  rw [e0, run_runU]
+  have hcf1 : (Op.pass :: ops).all cfOp = true := by simp [cfOp, hcf]
+  have hb1 : bigCount M ops ≤ bigCount M (Op.pass :: ops) := by rw [bigCount_cons]; omega
+  have rk := hrun (.pass :: ops) hcf1
+  have lk := hlive {} hg0 M hM (.pass :: ops) hcf1 (by omega)
+  have hrest := runU_rest (.pass :: ops) (start t {}).1 (start t {}).2.1
+  generalize runU (start t {}).1 (start t {}).2.1 (.pass :: ops) = R at rk lk hrest ⊢
+  obtain ⟨t', g', rest⟩ := R
+  obtain ⟨a1, a2, a3, a4⟩ := rk
+  obtain ⟨hf, hcnt⟩ := lk
+  simp only [trOf_nil, List.nil_append] at a3 a4
+  simp only at a1 a2 a3 a4 hrest hf hcnt ⊢
+  obtain ⟨⟨r, hr, hdone⟩, htr⟩ := a3 hf
+  refine ⟨r, hr, ?_⟩
+  cases rest with
+  | nil => rw [bigCount_nil] at hcnt; omega
+  | cons op rest' =>
+    have hopcf : cfOp op = true ∧ rest'.all cfOp = true := by have := hrest.2 hcf1; simpa using this
+    obtain ⟨t'', st, hin, e1, e2⟩ := step_deliver t' g' op hopcf.1 a1.2 r hdone
+    rw [run, e1, e2]
+    have hi := run_inert rest' t'' ((advG g' op).emit (.rootFin r.1 r.2 st)) hopcf.2 hin (by simp [G.emit, advG_user, a1.2])
+    rw [hi.2]
+    simp only [G.emit]
+    rw [trOf_cons_rootFin, advG_log, htr]
+
+/-- the evaluator is total on the covered class (a by-product: the model's run finishes and reports the
+evaluator's value) -/
+theorem eval_total (t : T) (hs : SerOk t = true) (hc : Clean t = true) : ∃ r, eval t = some r := by
+  obtain ⟨r, hr, _⟩ := finishes_once_run t hs hc (List.replicate (cost t + 1) (.adv (maxDelay t)))
+    (by simp [List.all_replicate, cfOp]) (maxDelay t) (Nat.le_refl _) (by rw [bigCount_replicate]; omega)
+  exact ⟨r, hr⟩
 
 end Tbox.C17
